@@ -204,6 +204,20 @@ def standin(rep: Report, prop="C09"):
                 srcs.append(f"v = [{pre}{q}one\\{nl}two{q}, 2]{nl}")
         srcs.append(f"if x:{nl}    y = (1 + \\{nl}2){nl}z{nl}")
     srcs += ["x = '''\n#'''", "x = '''\n#'''\n", "x = 1\n# c", "x = 1\n    # c", "if a:\n  b\n# c", "x = [1,\n#c\n2]", "x = 1 # c", "if a:\n  b # c", "x\n  ", "if a:\n  b\n  ", "x\n\t"]
+    # operators INSIDE brackets inside a replacement field are ordinary operators (only at the field's top level do `:` `!` `=` end the expression);
+    # f-string forms with recorded C10 findings (doubled braces, `=` debug, escapes) are left to C10
+    try:
+        ref_ops = sorted(rxload.patterns()["ref_ops"])
+    except RuntimeError:
+        ref_ops = [":=", "->", "**=", "//=", ">>=", "<<=", "!=", "==", "<=", ">=", ":", "=", "!", "@", "|"]
+    for op in ref_ops:
+        if any(c in op for c in "()[]{}'\"") or op in ("\\", "#"):
+            continue
+        for o, c in (("(", ")"), ("[", "]")):
+            srcs.append(f'f"{{{o}a {op} b{c}}}"\n')
+            srcs.append(f"x = f'v={{f({o}a{op}b{c}, c)!r:>10}} end'\n")
+    srcs += ['f"{(y:=1)}"\n', 'f"{[n:=5, n**2]}"\n', 'print(f"{(n := len(items))} items, twice is {2 * n}")\n', "f'{d[a:b]}'\n", "f'{d[a:b]:>{w}}'\n",
+             "f'{(lambda x: x)(1)}'\n", "f'{a if (b:=c) else d!s}'\n", 'def g(xs):\n    return f"{ {k: (v:=k * 2) for k in xs} }"\nz = 1\n']
     srcs = list(dict.fromkeys(srcs))
     a = oracle.run("tokens", [{"src": s} for s in srcs])
     b = oracle.run("pytokens", [{"src": s} for s in srcs])
